@@ -26,6 +26,10 @@ def universe():
         if fa != "<missing>":
             fields["a"] = fa
         pts.append({"time": tm, "meas": meas, "tags": tags, "fields": fields})
+    # a few points carrying keys spelled like the DSL's own builder attributes, and the hash-colliding numbers -1 / -2
+    pts += [{"time": T0, "meas": "m1", "tags": {"test": "x", "exists": "y", "map": "z", "search": "a"}, "fields": {"noop": 1, "matches": 0, "a": -2}},
+            {"time": T0 + 1, "meas": "m1", "tags": {"test": "q"}, "fields": {"noop": -1, "a": -1}},
+            {"time": T0, "meas": "", "tags": {"map": "x"}, "fields": {"a": 2 ** 61 - 1}}]
     return pts
 
 
@@ -59,6 +63,11 @@ def vocabulary():
           ("S", "fields", [("k", "a"), ("m", 2)], ("cmp", ">", ("n", 0))), ("S", "fields", [("k", "a"), ("m", 0)], ("cmp", "==", ("n", 1))),
           ("S", "fields", [("k", "a")], ("user", 0)), ("S", "fields", [("k", "a")], ("user", 4)),
           ("S", "time", [], ("user", 4)), ("S", "time", [("m", 4)], ("cmp", "==", ("t", T0 + 10000000))),
+          ("S", "fields", [("k", "a")], ("cmp", "==", ("n", -1))), ("S", "fields", [("k", "a")], ("cmp", "==", ("n", -2))),
+          ("S", "fields", [("k", "a")], ("cmp", "<=", ("n", -2))), ("S", "fields", [("k", "a")], ("cmp", "==", ("n", 2 ** 61 - 1))),
+          ("S", "tags", [("k", "test")], ("cmp", "==", ("s", "x"))), ("S", "tags", [("k", "exists")], ("exists",)),
+          ("S", "tags", [("k", "map")], ("cmp", "!=", ("s", "x"))), ("S", "fields", [("k", "noop")], ("cmp", ">", ("n", 0))),
+          ("S", "fields", [("k", "matches")], ("exists",)), ("S", "tags", [("k", "search")], ("match", 0, 0)),
           ("noop", "tags"), ("noop", "fields"), ("noop", "meas"), ("noop", "time")]
     # test functions that raise on some value types: well-formedness (total test) fails, outcome "raise" is compared too
     raising = [("S", "tags", [("k", "a")], ("user", 1)), ("S", "fields", [("k", "a")], ("user", 1)), ("S", "fields", [("k", "a")], ("user", 2))]
@@ -138,5 +147,5 @@ def emit_eq_cases(path, qs, eq_pairs, hashable):
              "Definition expected : list (list nat) := [" + "; ".join("[" + "; ".join(map(str, row)) + "]" for row in eq_pairs) + "].",
              "Definition hexp : list bool := [" + "; ".join(M.cbool(b) for b in hashable) + "].",
              "Definition hbad : list nat := map fst (filter (fun x => negb (Bool.eqb (is_hashable (fst (snd x))) (snd (snd x)))) (combine (seq 0 (length qs)) (combine qs hexp))).",
-             "Eval vm_compute in (length qs, badrows 0 model_pairs expected ++ map (fun x => 1000000 + x) hbad)."]
+             "Eval vm_compute in (N.of_nat (length qs), map N.of_nat (badrows 0 model_pairs expected) ++ map (fun x => (1000000 + N.of_nat x)%N) hbad)."]
     path.write_text("\n".join(lines) + "\n")
